@@ -167,6 +167,20 @@ impl AnyConn {
         };
         r
     }
+    /// Waits (without going through interact()) until no closure holds the connection any more.
+    async fn wait_unlocked(&self) {
+        for _ in 0..20_000 {
+            let busy = match self {
+                AnyConn::Sqlite(c) => matches!(c.try_lock(), Err(std::sync::TryLockError::WouldBlock)),
+                AnyConn::R2d2(c) => matches!(c.try_lock(), Err(std::sync::TryLockError::WouldBlock)),
+                AnyConn::Diesel(c) => matches!(c.try_lock(), Err(std::sync::TryLockError::WouldBlock)),
+            };
+            if !busy {
+                return;
+            }
+            tokio::time::sleep(Duration::from_micros(200)).await;
+        }
+    }
     fn is_poisoned(&self) -> bool {
         match self {
             AnyConn::Sqlite(c) => c.is_mutex_poisoned(),
@@ -327,7 +341,7 @@ pub fn history(backend: Backend, seed: u64, idx: u64) -> Case {
                     if started.load(Ordering::SeqCst) {
                         // barrier: the next interaction on the same connection can only start once the
                         // panicking closure has let go of the connection
-                        let _ = held[i].0.use_ok().await;
+                        held[i].0.wait_unlocked().await;
                         let _ = bad.insert(held[i].1);
                         let _ = bad_fn.lock().unwrap().insert(held[i].1);
                         log.push(format!("abandoned interaction on #{} panicked", held[i].1));
